@@ -761,7 +761,7 @@ int main(int argc, char ** argv) {
     P10[0] = 1; for (i = 1; i < 39; i++) P10[i] = P10[i - 1] * 10;
     for (i = 0; i < K__N; i++) if (!kname[i]) { fprintf(stderr, "C16 harness: counter %d has no name\n", i); return 2; }
     g_salt = (uint64_t) (VH_LIB_DTOSTRE ? 0x5bd1e995 : 0) + (uint64_t) (VH_ASAN ? 0x27d4eb2f165667c5ULL : 0);
-    vh_require("class.random_bits"); vh_require("result.ascii_array_items_compared"); vh_require("class.pow2_and_integer_type_limits"); vh_require("class.pow10"); vh_require("class.pow10_neighbour"); vh_require("class.carry_nines");
+    vh_decoy_enable(3); vh_require("decoy.messages_run_on_a_second_context"); vh_require("class.random_bits"); vh_require("result.ascii_array_items_compared"); vh_require("class.pow2_and_integer_type_limits"); vh_require("class.pow10"); vh_require("class.pow10_neighbour"); vh_require("class.carry_nines");
     vh_require("class.zero_digit"); vh_require("class.boundary_double"); vh_require("class.boundary_float"); vh_require("class.exact_tie");
     vh_require("class.subnormal"); vh_require("value.subnormal"); vh_require("class.zero"); vh_require("value.nonfinite"); vh_require("class.small_int");
     vh_require("dtostre.equal_to_rounded"); vh_require("dtostre.fixed_notation"); vh_require("dtostre.exponent_notation"); vh_require("calls.p01"); vh_require("calls.p15");
